@@ -147,6 +147,19 @@ pub fn run(env: &Env) {
                 cases.push(Case { case: json!({"f": "proof_gen_idx", "s": sn, "idx": idx, "nm": nm}), class: "proof_gen:index-list".into(), bytes: 8 * idx.len() + 16 * nm, count: nm + 4, expect_ok: None });
             }
         }
+        // 3a. the same entry points with some of their optional lists ABSENT while their partners are present (None vs Some mismatch)
+        for idx in lists(3).into_iter().filter(|l| l.len() <= 2) {
+            for nn in ["m", "i", "mi"] {
+                cases.push(Case { case: json!({"f": "proof_verify_idx", "s": sn, "idx": idx, "nm": idx.len().max(1), "none": nn}), class: "proof_verify:absent-list".into(), bytes: 8 * idx.len() + 32, count: idx.len() + 4, expect_ok: None });
+                cases.push(Case { case: json!({"f": "proof_gen_idx", "s": sn, "idx": idx, "nm": 3, "none": nn}), class: "proof_gen:absent-list".into(), bytes: 8 * idx.len() + 48, count: 7, expect_ok: None });
+            }
+            for nn in ["m", "i", "c", "j", "mc", "ij", "mj", "ci", "mcij"] {
+                for (a, b_) in [(idx.clone(), vec![0usize]), (vec![0usize], idx.clone()), (idx.clone(), idx.clone())] {
+                    cases.push(Case { case: json!({"f": "blind_proof_verify_idx", "s": sn, "l": 2, "idx": a, "cidx": b_, "nm": a.len().max(1), "ncm": b_.len().max(1), "none": nn}), class: "blind_proof_verify:absent-list".into(), bytes: 8 * (a.len() + b_.len()) + 64, count: a.len() + b_.len() + 6, expect_ok: None });
+                    cases.push(Case { case: json!({"f": "blind_proof_gen_idx", "s": sn, "idx": a, "cidx": b_, "nm": 2, "ncm": 2, "none": nn}), class: "blind_proof_gen:absent-list".into(), bytes: 8 * (a.len() + b_.len()) + 64, count: 10, expect_ok: None });
+                }
+            }
+        }
         for idx in lists(2) {
             cases.push(Case { case: json!({"f": "blind_proof_gen_idx", "s": sn, "idx": idx, "cidx": [0], "nm": 2, "ncm": 2}), class: "blind_proof_gen:index-list".into(), bytes: 8 * idx.len() + 64, count: 8, expect_ok: None });
             cases.push(Case { case: json!({"f": "blind_proof_gen_idx", "s": sn, "idx": [0], "cidx": idx, "nm": 2, "ncm": 2}), class: "blind_proof_gen:committed-index-list".into(), bytes: 8 * idx.len() + 64, count: 8, expect_ok: None });
